@@ -41,6 +41,13 @@ Theorem registry_history : forall hashf owns rf nf ops,
 Proof. exact RegistryProofs.registry_history_thm. Qed.
 Print Assumptions registry_history.
 
+(* ... hence at every intermediate step of a history *)
+Theorem registry_every_step : forall hashf owns rf nf done rest,
+  Gadm hashf owns rf nf (done ++ rest) gc_init ->
+  Inv hashf (Grun hashf owns rf nf done gc_init) /\ Quiet (Grun hashf owns rf nf done gc_init).
+Proof. exact RegistryProofs.registry_every_step_thm. Qed.
+Print Assumptions registry_every_step.
+
 (* C17 in one statement *)
 Theorem registry_is_ledger : forall hashf owns rf nf ops,
   Gadm hashf owns rf nf ops gc_init ->
